@@ -29,7 +29,9 @@ namespace Qats
 /-- Closes a goal `f a₁ … = g b₁ …` obtained after unfolding a generated formula: literals are normalised, then
 the two sides are compared up to ring normalisation (also under `^`, `logb`, `Gamma`). -/
 macro "sn_norm" : tactic =>
-  `(tactic| (norm_num <;> first | done | ring_nf | (congr 1 <;> ring_nf)))
+  `(tactic| first
+    | ((try norm_num1); ring1)
+    | (norm_num <;> first | done | ring_nf | (congr 1 <;> ring_nf)))
 
 /-- Same for the comparison masks `decide (a ≤ b) = decide (a' ≤ b')`: equal up to linear-arithmetic
 normalisation of the two inequalities. -/
